@@ -56,6 +56,8 @@ class Ctx:
     # -- rule bookkeeping -------------------------------------------------
     def rule(self, rid: str, desc: str, floor: int = 1):
         self._cur = rid
+        if rid in self.rules and self.rules[rid]["desc"] != desc:
+            raise AnalysisError(f"rule id {rid} registered twice with different descriptions")
         self.rules.setdefault(rid, {"desc": desc, "instances": 0, "floor": floor,
                                     "nontrivial": set(), "violations": 0})
 
